@@ -11,11 +11,13 @@ from harness.common import struct_hash
 
 ID = "C05"
 LEVEL_TEXT = ('Lean 4 theorems about the executable model of the code (all inputs, by induction), tied to /repo by tables regenerated on every run (decide) and by differential execution of model and implementation; the property oracle is also run on the implementation for every case. PARTIAL: what is proved is the placement of every value / SET pair / target in the rendered statement; that executing it leaves the database in the state the reference statement produces is EXECUTED on SQLite, not proved.')
-LEAN_MODULES = ["Pypika.Props.C05"]
+LEAN_MODULES = ["Pypika.Props.C05", "Pypika.Props.Builder"]
 TRACE_BUILDER = True   # builder calls made by this check are also run through Pypika.B.step (harness/trace.py)
 THEOREMS = ["Pypika.C05.values_grid", "Pypika.C05.set_pairs_in_order", "Pypika.C05.insert_layout", "Pypika.C05.insert_head_forms",
             "Pypika.C05.update_layout", "Pypika.C05.delete_layout", "Pypika.C05.insert_select_layout",
-            "Pypika.C05.row_cell", "Pypika.C05.columns_in_order"]
+            "Pypika.C05.row_cell", "Pypika.C05.columns_in_order",
+            # concrete builder model (Builder.lean, tied call by call through harness/trace.py)
+            "Pypika.B.set_appends", "Pypika.B.insert_needs_target", "Pypika.B.insert_row_appends"]
 AGREE = []
 TRUSTED = [
     "sqlite3 %s (the engine applying both statements)" % sqlite3.sqlite_version,
